@@ -486,7 +486,7 @@ def shards(tier):
 
 def run_shard(spec, seed, tier):
     res = ShardResult()
-    n = 80 if tier == "quick" else 800
+    n = 80 if tier == "quick" else 400
     if spec["kind"] == "huge":
         first = {}
         for shuffled in ((False,) if tier == "quick" else (False, True)):
